@@ -208,7 +208,7 @@ def t_translate(net, spec):
                     it["z"] += tz
     e = ident_expect()
     e["shift"] = (tx, ty, tz)
-    e["tolscale"] = 1.0 + max(abs(tx), abs(ty), abs(tz)) * 1e-9 / 1e-6 * 2   # 2e-9 relative of T on a 1e-6 m budget
+    e["tolscale"] = 1.0 + max(abs(tx), abs(ty), abs(tz)) * 1e-9      # ulp(T)/1e-6 m: 1e7 m -> 1 %
     return n, e
 
 
